@@ -43,6 +43,9 @@ CHECKS = {
  "C16": dict(level="model_checking", technique="symbolic execution of the MIR (integer domain, fresh quotient/remainder encoding, lemma chains) for hash-to-range and mod-N arithmetic; Kani bounded model checking for H1/H2 framing and extraction data-flow",
              text="mod_n_from_hash(Ha) = (Ha mod (N-1))+1 in [1,N-1] for ALL 320-bit Ha; mod_n_add/sub and Barrett mod_n_mul exact for all canonical operands; H1/H2 hash exactly prefix||Z||ct with ct=1,2 and pass the first 40 bytes on; extraction computes [k*(H1(ID||hid)+k)^-1]P with hid 01/03/02 on P1/P2/P2 and fails exactly when H1+k = 0.",
              note="u256/u320 limb arithmetic proved exact once (L1) and used as integer statements; SM3 and the group layer are arbitrary functions in the Kani harnesses; Annex values only in the replay reference.", design="§2 C16", engine="mirsmt+kani"),
+ "C17": dict(level="model_checking", technique="symbolic execution of the MIR of exch_step_1a / 1b / 2a over bit-vectors with pairing/group layers and SM3 as z3 uninterpreted functions; ring identity for agreement",
+             text="R_A = [r_A]([H1(ID_B||02)]P1+Ppub-e), R_B likewise for the last scalar drawn; both parties derive KDF(ID_A||ID_B||R_A||R_B||g1||g2||g3, klen) of exactly klen bytes with g1,g2,g3 as GM/T 0044.3 defines on each side; a received R is checked to be on the curve before use; every step terminates (no unbounded retry on identical inputs); (g1,g2,g3) coincide on both sides over ideal bilinear groups.",
+             note="layers uninterpreted; klen in {1,16,33} quick; identities of 5/3 bytes; tamper => different keys modulo SM3 collision resistance.", design="§2 C17", engine="mirsmt"),
  "C18": dict(level="model_checking", technique="Kani/CBMC bounded model checking of the real EEA/EIA code with ZUC replaced by capturing stubs handing out symbolic keystream",
              text="IV byte layout for all COUNT/BEARER/DIRECTION; number of keystream words requested for ALL 32-bit LENGTH (no overflow); EEA3 output words and EIA3 MAC equal the 3GPP formulas for symbolic key, message and keystream at LENGTH in {0,1,31,32,33,63,64,65,95,96}.",
              note="keystream arbitrary (C08); message content beyond 96 bits outside the bound.", design="§2 C18", engine="kani"),
